@@ -50,6 +50,10 @@ PRE = [
     ('lparen', 'x = (@% )'), ('call_lparen', 'f(@% )'), ('lbracket', 'x = [@% ]'), ('comma', 'f(a,@% )'),
     ('question', 'x = a ?@% : b'), ('colon', 'x = a ? b :@%'), ('object_colon', 'x = {a:@% }'),
     ('lbrace', '{@% }'), ('semicolon', 'a;@%'), ('start', '@%'), ('label_colon', 'l:@%'),
+    # '++' / '--' after a line terminator are prefix operators (7.9.1): a regex follows
+    ('prefix_dec', 'x = --@%'), ('lt_prefix_inc', 'a\n++@%'), ('lt_prefix_dec', 'a\n--@%'), ('block_lt_prefix_inc', '{}\n++@%'),
+    ('start_lt_prefix_dec', '\n--@%'), ('comment_lt_prefix_inc', 'a /*\n*/ ++@%'), ('ls_prefix_dec', 'x = 1\u2028--@%'),
+    ('header_lt_prefix_inc', 'if (a)\n++@%'), ('postfix_lt_prefix', 'a++\n++@%'),
     ('case_colon', 'switch (a) { case 1:@% }'), ('funcdecl_rbrace', 'function f(){}@%'),
     ('func_body_start', 'function f(){@% }'), ('var_init', 'var v =@%'), ('for_init', 'for (@% ;;) ;'),
     ('for_cond', 'for (;@% ;) ;'), ('for_count', 'for (;;@% ) ;'), ('comma_expr', 'a,@%'),
